@@ -187,10 +187,17 @@ func runC16(c c16Case) Result {
 			key  string
 			want *big.Int
 		}{{"inputHash", m.InputHash}, {"preRoot", m.PreRoot}, {"postRoot", m.PostRoot}} {
+			// the encoder's notation is not promised beyond "a number the decoder accepts": 0x-hex or canonical decimal
 			s, _ := tree[k.key].(string)
-			v, okk := new(big.Int).SetString(strings.TrimPrefix(s, "0x"), 16)
-			if !strings.HasPrefix(s, "0x") || !okk || v.Cmp(k.want) != 0 {
-				return bad(class, "MarshalJSON:"+k.key, "encoded %s = %q does not denote %s in 0x-hex", k.key, s, k.want)
+			var v *big.Int
+			var okk bool
+			if strings.HasPrefix(s, "0x") || strings.HasPrefix(s, "0X") {
+				v, okk = new(big.Int).SetString(s[2:], 16)
+			} else {
+				v, okk = new(big.Int).SetString(s, 10)
+			}
+			if !okk || v.Cmp(k.want) != 0 {
+				return bad(class, "MarshalJSON:"+k.key, "encoded %s = %q does not denote %s", k.key, s, k.want)
 			}
 		}
 		return ok(class, c16NonTrivialParams(m))
